@@ -38,7 +38,11 @@ RULE = ("one run = one graph specification (construction + arguments around "
         "may be continued by two further commands on the same simulated "
         "disk ('<file> [addedges k] save <file2>', then '<file2>'); 3% of "
         "the lib runs build lazily stored bipartite constructions with a "
-        "right side of 2^53+1 .. 3^35 vertices. Non-trivial: "
+        "right side of 2^53+1 .. 3^35 vertices; 8% of the 'regular' "
+        "requests are dense with 12-24 vertices per side; config "
+        "'optimized': the request is served by two fresh interpreters, one "
+        "of them under 'python -O', and the outcomes are compared. "
+        "Non-trivial: "
         "the request was valid and used a random construction or a modifier;"
         " distinct = distinct (type, spec, PRNG seed, adversary).")
 ASSUMPTIONS = ["sizes <= ~12 vertices (isomorphism and clique search are "
